@@ -105,7 +105,7 @@ def branch (c : Case) (inQ inP : Bool) (r : Except Err (List LData)) : String :=
   let flipped : Bool := match r with
     | .ok o => (flatten o).any fun p =>
         ((plan c.d c.comps).filter (carried c.fmt)).any fun col =>
-          nameRepr c.fmt col.name == p.2.name && (col.kind == .str) != p.2.cat
+          nameRepr c.fmt col.name == p.2.name && (col.kind == .str) != p.2.cat && !p.2.cells.isEmpty
     | .error _ => false
   let dom := if inP then "P" else if inQ then "finding" else "outside"
   let extra := match r with
@@ -132,12 +132,6 @@ def judge (c : Case) (pyout : Sexp) (extraOk : Bool) (wrap : Sexp → Sexp) : St
 
 def step (line : String) : String :=
   match Sexp.parse line with
-  | some (.list [.atom fam, .list [fmt, shape, cols, sel, comps], pyout]) =>
-    if fam == "tab" || fam == "img" then
-      match case? fmt shape cols sel comps with
-      | some c => judge c pyout true id
-      | none => bad "case-args"
-    else bad "unknown-family"
   | some (.list [.atom "sess", .list [fmt, shape, cols, sel, comps, cols2], pyout]) =>
     -- session saved by reference: the restored values are the file's contents at restore time
     -- (the file was re-exported from `cols2` after saving), and nothing was stored inline
@@ -165,6 +159,12 @@ def step (line : String) : String :=
       let impl : Sexp := .list [v, ofBool (intLike t), ofNats (asciiReplace t)]
       driverResult impl (pyout == impl) true true (if (parseNum t).isSome then "numeric" else "text")
     | none => bad "pnum-args"
+  | some (.list [.atom fam, .list [fmt, shape, cols, sel, comps], pyout]) =>
+    if fam == "tab" || fam == "img" then
+      match case? fmt shape cols sel comps with
+      | some c => judge c pyout true id
+      | none => bad "case-args"
+    else bad "unknown-family"
   | _ => bad "unknown-line"
 
 def main : IO Unit := driverLoop step
